@@ -353,6 +353,106 @@ def c09_resolve(tier, seed):
     return r
 
 
+def _custom_pseudo_types():
+    """user pseudo-types as the README shows them: a second date spelling (same python type as IsoDateString), a class that shares
+    its NAME with a python type, a second int-like class"""
+    import datetime as _dt
+    from json_to_models.dynamic_typing import StringSerializable
+
+    class UsDateString(StringSerializable, _dt.date):
+        actual_type = _dt.date
+
+        @classmethod
+        def to_internal_value(cls, value):
+            m, d, y = value.split("/")
+            if not (len(y) == 4 and m.isdigit() and d.isdigit() and y.isdigit()):
+                raise ValueError(value)
+            return cls(int(y), int(m), int(d))
+
+        def to_representation(self):
+            return f"{self.month:02d}/{self.day:02d}/{self.year:04d}"
+
+    class HexString(StringSerializable, int):
+        actual_type = int
+
+        @classmethod
+        def to_internal_value(cls, value):
+            if not value.startswith("0x"):
+                raise ValueError(value)
+            return cls(int(value, 16))
+
+        def to_representation(self):
+            return hex(self)
+
+    class date(StringSerializable, str):        # a pseudo-type whose own name is the name others have as their python type
+        actual_type = str
+
+        @classmethod
+        def to_internal_value(cls, value):
+            if not value.startswith("d:"):
+                raise ValueError(value)
+            return cls(value)
+
+        def to_representation(self):
+            return str(self)
+    return {"UsDateString": UsDateString, "HexString": HexString, "date": date}
+
+
+def oracle_c09_remove_by_name(case):
+    """disabling by name removes EVERY registered pseudo-type whose own name or whose python type's name is that name - wherever
+    they stand in the registration order - and nothing else; afterwards none of them is detected"""
+    order, name = case
+    from json_to_models.dynamic_typing import StringSerializableRegistry
+    custom = _custom_pseudo_types()
+    pool = {"IntString": IntString, "FloatString": FloatString, "BooleanString": BooleanString, "IsoDateString": IsoDateString,
+            "IsoTimeString": IsoTimeString, "IsoDatetimeString": IsoDatetimeString, **custom}
+    r = StringSerializableRegistry()
+    for nm in order:
+        if nm == "FloatString" and "IntString" in order[:order.index(nm)]:
+            r.add(replace_types=(IntString,), cls=FloatString)
+        elif nm == "HexString" and "IntString" in order[:order.index(nm)]:
+            r.add(replace_types=(IntString,), cls=pool[nm])
+        else:
+            r.add(cls=pool[nm])
+    before = list(r.types)
+    r.remove_by_name(name)
+    named = [t for t in before if t.__name__ == name or t.actual_type.__name__ == name]
+    left = [t for t in r.types if t in named]
+    if left:
+        return f"registry {list(order)}: after remove_by_name({name!r}) still registered: {[t.__name__ for t in left]}"
+    lost = [t for t in before if t not in named and t not in r.types]
+    if lost:
+        return f"registry {list(order)}: remove_by_name({name!r}) also removed {[t.__name__ for t in lost]}"
+    stale = [p for p in r.replaces if p[0] in named or p[1] in named]
+    if stale:
+        return f"registry {list(order)}: a replace pair still mentions a removed type: {stale}"
+    gen = MetadataGenerator(str_types_registry=r)
+    for text in ("12", "1.5", "true", "2018-12-31", "12/31/2018", "12:30", "2018-12-31T12:30:00", "0x1f", "d:x"):
+        t = gen._detect_type(text)
+        if t in named:
+            return f"registry {list(order)}: {text!r} is still detected as the disabled {t.__name__}"
+    return None
+
+
+@bounded("C09", "disable_by_name_removes_every_match")
+def c09_remove_by_name(tier, seed):
+    orders = [("IntString", "FloatString", "BooleanString", "IsoDateString", "UsDateString", "IsoTimeString"),
+              ("UsDateString", "IsoDateString", "IntString"), ("IsoDateString", "IntString", "UsDateString"),
+              ("IntString", "HexString", "FloatString"), ("HexString", "IntString", "BooleanString", "FloatString"),
+              ("IsoDateString", "date", "UsDateString"), ("date", "UsDateString", "IsoDateString", "IsoDatetimeString"),
+              ("IntString", "FloatString", "BooleanString")]
+    names = ["date", "int", "float", "bool", "IntString", "UsDateString", "str", "time", "nothing"]
+    if tier == "thorough":
+        rng = random.Random(seed)
+        pool = ["IntString", "FloatString", "BooleanString", "IsoDateString", "IsoTimeString", "IsoDatetimeString", "UsDateString", "HexString", "date"]
+        orders += [tuple(rng.sample(pool, rng.randint(2, 9))) for _ in range(300)]
+    cases = [(o, n) for o in orders for n in names]
+    r = run_cases(cases, oracle_c09_remove_by_name, "c09_remove_by_name")
+    r["bound"] = f"{len(orders)} registries (shipped pseudo-types plus three user ones: several classes with one python type, a class named like a python type; adjacent and separated) x {len(names)} names"
+    r["function"] = "StringSerializableRegistry.remove_by_name / remove"
+    return r
+
+
 # ------------------------------------------------------------------------------------------------ C06
 C06_INPUTS = [
     {"Root": [{"p": {"a": 1, "b": 2, "c": 3}, "q": [{"a": 1, "b": 2, "c": "x"}, {"b": 1, "a": 2}]}]},
@@ -377,6 +477,20 @@ def _shared_children():
 
 
 C06_INPUTS.append({"Root": [_shared_children()]})
+
+
+def _many_similar_sections(n=30):
+    """more than 26 similar nested objects in one merge group (model indexes 1A..1Z, 2A..: ids of different lengths / equal last
+    letters), each with its own extra key and alternating value types, so the order in which the group is merged shows in the output"""
+    doc = {"version": 3}
+    for i in range(n):
+        sec = {"host": f"h{i}", "port": 8000 + i, "enabled": True, "weight": 1.5, "retries": 3, "tags": ["a"], f"extra_{i:02d}": i,
+               "limit": i if i % 2 else bool(i % 4)}
+        doc[f"svc_{i:02d}"] = sec
+    return doc
+
+
+C06_INPUTS.append({"Config": [_many_similar_sections()]})
 
 C06_SCRIPT = r'''
 import json, sys
@@ -705,7 +819,7 @@ def c15(tier, seed):
     return r
 
 
-ORACLES = {"c15_cli": lambda c: oracle_c15_cli((tuple(c[0]),)), "c14_shared": lambda c: oracle_c14_shared_options((tuple(c[0]), c[1])), "c05_cli_thr": oracle_c05_cli_threshold, "c05_history": oracle_c05_history, "c05": lambda c: oracle_c05(tuple(c)), "c05_thr": lambda c: oracle_c05_thresholds(tuple(c)), "c09_string": lambda c: oracle_c09_string(tuple(c)),
+ORACLES = {"c15_cli": lambda c: oracle_c15_cli((tuple(c[0]),)), "c14_shared": lambda c: oracle_c14_shared_options((tuple(c[0]), c[1])), "c05_cli_thr": oracle_c05_cli_threshold, "c05_history": oracle_c05_history, "c05": lambda c: oracle_c05(tuple(c)), "c05_thr": lambda c: oracle_c05_thresholds(tuple(c)), "c09_string": lambda c: oracle_c09_string(tuple(c)), "c09_remove_by_name": lambda c: oracle_c09_remove_by_name((tuple(c[0]), c[1])),
            "c09_resolve": lambda c: oracle_c09_resolve((c[0], grammar("quick", 0))), "c06": lambda c: oracle_c06(tuple(c)),
            "c14": oracle_c14, "c14_rerender": oracle_c14_rerender, "c15": lambda c: oracle_c15(tuple(c)),
            "c14_cli": lambda c: oracle_c14_cli(tuple(c))}
@@ -744,7 +858,16 @@ def lib():
     reg.process_meta_data(gen.generate({{"d": "2018-12-31", "n": "12"}}), model_name="Root")
     reg.merge_models(gen); reg.generate_names()
     return generate_code(compose_models_flat(reg.models_map), PydanticModelCodeGenerator)
+def lib_own_registry():
+    # a library user who passes an OWN registry is isolated from whatever happened to the module-level default one
+    from bounded.common import fresh_registry
+    gen = MetadataGenerator(str_types_registry=fresh_registry(datetime=True))
+    reg = ModelRegistry()
+    reg.process_meta_data(gen.generate({{"price": "12", "when": "2018-12-31", "b": "true"}}, {{"price": "1.5", "when": "12:30", "b": "1"}}), model_name="Root")
+    reg.merge_models(gen); reg.generate_names()
+    return generate_code(compose_models_flat(reg.models_map), PydanticModelCodeGenerator)
 before = lib()
+before_own = lib_own_registry()
 d = tempfile.mkdtemp(prefix="j2m_c14_")
 p = os.path.join(d, "in.json"); open(p, "w").write(json.dumps({{"k": 1}}))
 from json_to_models.cli import Cli
@@ -757,7 +880,11 @@ finally:
     sys.argv = old
     import shutil; shutil.rmtree(d, ignore_errors=True)
 after = lib()
-sys.stdout.write("SAME" if before == after else "DIFF\n--- before\n" + before + "\n--- after\n" + after)
+after_own = lib_own_registry()
+if before_own != after_own:
+    sys.stdout.write("OWN\n--- before\n" + before_own + "\n--- after\n" + after_own)
+else:
+    sys.stdout.write("SAME" if before == after else "DIFF\n--- before\n" + before + "\n--- after\n" + after)
 """
 
 
@@ -767,6 +894,9 @@ def oracle_c14_cli(extra):
     p = subprocess.run([sys.executable, "-c", code], capture_output=True, text=True, env=dict(os.environ, PYTHONPATH=f"{repo}:{HERE}"), timeout=180)
     if p.returncode != 0:
         raise RuntimeError("probe process failed: " + p.stderr[-300:])
+    if p.stdout.startswith("OWN"):
+        return "OWN: a library generation with its OWN string registry gives different text after an in-process CLI run with " + \
+            " ".join(extra) + ": " + p.stdout[:500].replace("\n", " | ")
     if not p.stdout.startswith("SAME"):
         return "a library generation with the default string registry gives different text after an in-process CLI run with " + \
             " ".join(extra) + ": " + p.stdout[:400].replace("\n", " | ")
@@ -777,15 +907,17 @@ def oracle_c14_cli(extra):
 def c14_cli(tier, seed):
     """the CLI front end is one of the 'earlier generations in the same process': a later library call must not see it"""
     from .ir_props import run_cases
-    cases = [(), ("--datetime",), ("--disable-str-serializable-types", "int"), ("-f", "attrs"), ("--max-strings-literals", "0")]
+    cases = [(), ("--datetime",), ("--disable-str-serializable-types", "int"), ("-f", "attrs"), ("--max-strings-literals", "0"),
+             ("--disable-str-serializable-types", "float")]
     viol = []
     ev = 0
     for extra in cases:
         ev += 1
         msg = oracle_c14_cli(extra)
         if msg:
-            viol.append({"id": "cli-then-library:" + " ".join(extra), "input": list(extra), "what": msg,
+            # a generation with its own registry that changes is a different witness from the (listed) default-registry findings
+            viol.append({"id": ("cli-then-own-registry:" if msg.startswith("OWN") else "cli-then-library:") + " ".join(extra), "input": list(extra), "what": msg,
                          "replay": {"module": __name__, "fn": "replay", "oracle": "c14_cli"}})
     return {"evaluations": ev, "distinct": ev, "violations": viol,
-            "bound": "5 CLI option sets run in-process (fresh interpreter each), each followed by one library generation compared with the same generation before the run",
+            "bound": "6 CLI option sets run in-process (fresh interpreter each), each followed by a library generation with the default registry and one with its own registry (mixed int/float/bool/date/time strings), compared with the same generations before the run",
             "function": "Cli.parse_args / Cli.run against the module-level default registry"}
